@@ -13,6 +13,25 @@ from cryptography.hazmat.primitives.ciphers.aead import ChaCha20Poly1305
 WINDOW = 100          # accepted: stored < n < stored + WINDOW
 
 
+def hkdf_sha512(ikm: bytes, salt: bytes, info: bytes, length: int = 32) -> bytes:
+    """RFC 5869 with HMAC-SHA-512, written out with hmac (independent of aiohomekit.crypto.hkdf)."""
+    import hashlib
+    import hmac
+    prk = hmac.new(salt if salt else bytes(64), ikm, hashlib.sha512).digest()
+    okm, t, i = b"", b"", 1
+    while len(okm) < length:
+        t = hmac.new(prk, t + info + bytes([i]), hashlib.sha512).digest()
+        okm += t
+        i += 1
+    return okm[:length]
+
+
+def broadcast_key(session_secret: bytes, controller_ltpk: bytes) -> bytes:
+    """HAP-BLE 7.4.7.3: HKDF-SHA-512(ikm = current session shared secret, salt = controller LTPK,
+    info = "Broadcast-Encryption-Key"), 32 bytes."""
+    return hkdf_sha512(session_secret, controller_ltpk, b"Broadcast-Encryption-Key", 32)
+
+
 def nonce(n: int) -> bytes:
     return b"\x00\x00\x00\x00" + n.to_bytes(8, "little")
 
